@@ -2,6 +2,7 @@
 simulators/active_surface/__init__.py (USD objects spied on, opaque in the model) and the
 property-level oracle on the real System (full attribute snapshots of every USD)."""
 import copy
+import re
 
 from props import asl_lib as L
 
@@ -52,6 +53,21 @@ def gen_history(rng, lo, hi, nmsg):
     return bs, tags
 
 
+
+def heterogeneous():
+    """broadcasts of the commands whose USD method can refuse, on a line where exactly one unit
+    (the first, or one in the middle) refuses and the others accept: (lo, hi, pokes, code, params)"""
+    out = []
+    for j in (0, 1, 2):
+        out.append((2, 5, [(j, 'max_frequency', 5000)], 0x20, [0x17, 0x70]))         # min := 6000
+        out.append((2, 5, [(j, 'min_frequency', 2000)], 0x21, [0x03, 0xE8]))         # max := 1000
+        out.append((2, 5, [(j, 'running', True)], 0x30, [0, 0, 0x10, 0]))
+        out.append((2, 5, [(j, 'running', True)], 0x31, [0, 0, 0x10, 0]))
+        out.append((2, 5, [(j, 'running', True)], 0x32, [1]))
+        out.append((2, 5, [(i, 'auto_resolution', True) for i in range(4) if i != j], 0x35, [0, 0, 5]))
+    return out
+
+
 def correspondence(ctx):
     rng = ctx.rng
     cases = []
@@ -63,6 +79,8 @@ def correspondence(ctx):
         (5, 6, [], L.frame(L.FC, 4, 0x01, []) + L.frame(L.FC, 3, 0x28, [255]) + L.frame(L.FC, 0, 0x12, [])),
         (0, 31, [], L.frame(L.FC, None, 0x22, [9]) + L.frame(L.FC, 31, 0x12, [])),
     ]
+    for lo, hi, pokes, code, params in heterogeneous():
+        corpus.append((lo, hi, pokes, L.frame(L.FC, None, code, params) + L.frame(L.FA, hi, code, params)))
     for lo, hi, pokes, bs in corpus:
         term, outs, units = L.run_history(lo, hi, pokes, bs)
         cases.append(term)
@@ -124,67 +142,100 @@ def check_one(w):
         msg = L.frame(start, target, code, params)
         outs = L.feed(s, msg)
         after = L.snapshots(s)
-        logs = [list(u._spy) for u in s.drivers]
+        logs = L.logs_of(s)
+        if len(after) != len(before):
+            return 'the line has %d units after the command, %d before' % (len(after), len(before))
         if any(o != 'T' for o in outs[:-1]):
             return 'frame not consumed byte by byte with True: %r' % (outs,)
         if L.fstate_of(s) != ([], False, 0):
             return 'parser not idle after the frame'
-        last = outs[-1]
-        if target is None:
-            # broadcast: never answered; every unit ends as after the same command sent to it alone
-            if isinstance(last, list):
-                return 'broadcast answered: %s' % bytes(last).hex()
-            s2 = prepared_line(lo, hi, pokes, prefix)
-            for a in range(lo, hi + 1):
-                L.feed(s2, L.frame(start, a, code, params))
-            expect = L.snapshots(s2)
-            for j in range(n):
-                if after[j] != expect[j]:
-                    diff = sorted(k for k in after[j] if after[j][k] != expect[j].get(k))
-                    return ('broadcast leaves unit %d (index %d) different from the unicast result: %s'
-                            % (lo + j, j, diff))
-                if len(logs[j]) > 1:
-                    return 'broadcast invoked unit %d %d times' % (lo + j, len(logs[j]))
-            calls = set((c, repr(a)) for lg in logs for c, a, r, dm in lg)
-            if len(calls) > 1:
-                return 'broadcast invoked units with different arguments'
-            return None
-        if lo <= target <= hi:
-            j = target - lo
-            for i in range(n):
-                if i != j and (after[i] != before[i] or logs[i]):
-                    return 'unicast to %d changed/invoked unit %d' % (target, lo + i)
-            if len(logs[j]) > 1:
-                return 'unicast invoked the unit more than once'
-            if isinstance(last, list) and len(last) > 1:
-                if last[0] != L.ACK or last[1] != start:
-                    return 'reply does not echo the start byte'
-                payload, hdr = payload_of(start, last)
-                if start == L.FC and (hdr & 0x1F) != target:
-                    return 'reply carries address %d, request had %d' % (hdr & 0x1F, target)
-                u = s.drivers[j]
-                if code == 0x12 and payload != list((u.current_position % 2 ** 32).to_bytes(4, 'big')):
-                    return 'position reply is not the position of the addressed unit'
-                if code == 0x13 and payload != [ord(c) for c in type(u).__mro__[1].get_status(u)]:
-                    return 'status reply is not the status of the addressed unit'
-            silent = before[j]['delay_multiplier'] == 255 and after[j]['delay_multiplier'] == 255
-            if last in ('V', 'E', 'B', 'F'):
-                if code in L.NPAR:
-                    return 'known command to a present unit gave %r' % (last,)
-            elif last == 'T' and after[j]['delay_multiplier'] != 255:
-                return 'present unit did not answer'
-            elif isinstance(last, list) and silent:
-                return 'unit with delay_multiplier 255 answered'
-            return None
-        # absent address
+        bad = class_check(w, s, lo, hi, n, pokes, prefix, start, target, code, params,
+                          outs, before, after, logs)
+        if bad:
+            return bad
+        # whatever the command was, the units the parser addresses afterwards must still be the
+        # units the positioning loop drives: command a velocity to every unit through parse, run
+        # one iteration of the loop on the list the thread was started with, read the positions
+        return motion_probe(s, lo, hi)
+
+
+def real_usd():
+    from simulators.active_surface.usd import USD
+    return USD
+
+
+def motion_probe(s, lo, hi):
+    from simulators.active_surface.usd import USD
+    if len(s.drivers) != hi - lo + 1:
+        return 'the line has %d units instead of %d' % (len(s.drivers), hi - lo + 1)
+    pos0 = [u.current_position for u in s.drivers]
+    for a in range(lo, hi + 1):
+        L.feed(s, L.frame(L.FA, a, 0x35, [0x00, 0x03, 0xE8]))       # set_velocity(1000)
+    L.tick(s, 0.5)
+    for j, u in enumerate(s.drivers):
+        if pos0[j] < USD.max_position and not u.current_position > pos0[j]:
+            return ('unit %d does not move any more after the command (velocity 1000 commanded, one '
+                    'iteration of the positioning loop run): position stays %d' % (lo + j, u.current_position))
+    return None
+
+
+def class_check(w, s, lo, hi, n, pokes, prefix, start, target, code, params, outs, before, after, logs):
+    last = outs[-1]
+    if target is None:
+        # broadcast: never answered; every unit ends as after the same command sent to it alone
         if isinstance(last, list):
-            return 'absent address %d answered: %s' % (target, bytes(last).hex())
-        if after != before:
-            j = [i for i in range(n) if after[i] != before[i]][0]
-            return 'absent address %d changed unit %d' % (target, lo + j)
-        if any(logs):
-            return 'absent address %d invoked a unit' % target
+            return 'broadcast answered: %s' % bytes(last).hex()
+        s2 = prepared_line(lo, hi, pokes, prefix)
+        for a in range(lo, hi + 1):
+            L.feed(s2, L.frame(start, a, code, params))
+        expect = L.snapshots(s2)
+        for j in range(n):
+            if after[j] != expect[j]:
+                diff = sorted(k for k in after[j] if after[j][k] != expect[j].get(k))
+                return ('broadcast leaves unit %d (index %d) different from the unicast result: %s'
+                        % (lo + j, j, diff))
+            if len(logs[j]) > 1:
+                return 'broadcast invoked unit %d %d times' % (lo + j, len(logs[j]))
+        calls = set((c, repr(a)) for lg in logs for c, a, r, dm in lg)
+        if len(calls) > 1:
+            return 'broadcast invoked units with different arguments'
         return None
+    if lo <= target <= hi:
+        j = target - lo
+        for i in range(n):
+            if i != j and (after[i] != before[i] or logs[i]):
+                return 'unicast to %d changed/invoked unit %d' % (target, lo + i)
+        if len(logs[j]) > 1:
+            return 'unicast invoked the unit more than once'
+        if isinstance(last, list) and len(last) > 1:
+            if last[0] != L.ACK or last[1] != start:
+                return 'reply does not echo the start byte'
+            payload, hdr = payload_of(start, last)
+            if start == L.FC and (hdr & 0x1F) != target:
+                return 'reply carries address %d, request had %d' % (hdr & 0x1F, target)
+            u = s.drivers[j]
+            if code == 0x12 and payload != list((u.current_position % 2 ** 32).to_bytes(4, 'big')):
+                return 'position reply is not the position of the addressed unit'
+            if code == 0x13 and payload != [ord(c) for c in real_usd().get_status(u)]:
+                return 'status reply is not the status of the addressed unit'
+        silent = before[j]['delay_multiplier'] == 255 and after[j]['delay_multiplier'] == 255
+        if last in ('V', 'E', 'B', 'F'):
+            if code in L.NPAR:
+                return 'known command to a present unit gave %r' % (last,)
+        elif last == 'T' and after[j]['delay_multiplier'] != 255:
+            return 'present unit did not answer'
+        elif isinstance(last, list) and silent:
+            return 'unit with delay_multiplier 255 answered'
+        return None
+    # absent address
+    if isinstance(last, list):
+        return 'absent address %d answered: %s' % (target, bytes(last).hex())
+    if after != before:
+        j = [i for i in range(n) if after[i] != before[i]][0]
+        return 'absent address %d changed unit %d' % (target, lo + j)
+    if any(logs):
+        return 'absent address %d invoked a unit' % target
+    return None
 
 
 def klass_of(w):
@@ -217,6 +268,9 @@ def oracle(ctx):
                        target=rng.choice([5, 31]), code=code, params=ps))
         ws.append(dict(min=2, max=4, pokes=[], prefix='', start=rng.choice([L.FA, L.FC]),
                        target=rng.choice([2, 3, 4]), code=code, params=ps))
+    for lo, hi, pokes, code, params in heterogeneous():
+        ws.append(dict(min=lo, max=hi, pokes=[list(p) for p in pokes], prefix='', start=L.FC, target=None,
+                       code=code, params=bytes(params).hex()))
     for _ in range(ctx.n(900, 20000)):
         lo, hi = L.gen_config(rng)
         pokes = L.gen_pokes(rng, hi - lo + 1, soft=True, p=0.4)
@@ -242,8 +296,9 @@ def oracle(ctx):
         k = klass_of(w)
         hist[k] = hist.get(k, 0) + 1
         bad = check_one(w)
-        if bad and (k, bad[:40]) not in seen:
-            seen.add((k, bad[:40]))
+        key = (k, re.sub(r'[0-9a-f]*\d[0-9a-f]*', '#', bad or '')[:40])
+        if bad and key not in seen:
+            seen.add(key)
             ctx.fail('as-' + k, bad, shrink(w))
     ctx.oracle_stats = dict(checked=checked, classes=hist)
     ctx.evaluations += checked
